@@ -22,6 +22,7 @@ CHECK_DEADLOCK FALSE
 POSTCONDITION Post
 """
 NENC = 19
+ISOLATED = {"Tree", "List", "Node", "*Node", "[]Node", "map[string]Tree", "P", "Ma", "EN", "*EN", "EA"}
 
 
 def js(x):
@@ -198,6 +199,10 @@ def gen_cases(ctx):
         if k not in seen:
             seen.add(k)
             cases.append(c)
+    # shapes with a recursive type run in child processes (one per option mask): keep those with at most two fields and the
+    # tag forms none / omitempty
+    cases = [c for c in cases if not any(f["k"] in ISOLATED for f in c["f"])
+             or (len(c["f"]) <= 2 and all(f["t"] in ("", "oe") for f in c["f"] if f["k"] in ISOLATED))]
     if len(cases) < 500:
         raise Infra("case generation produced only %d cases" % len(cases))
     # named library types as top-level values (CreateKey / FullTypePath need a named top-level type)
